@@ -837,7 +837,15 @@ fn forgery_round(rt: &tokio::runtime::Runtime, r: &mut Report, g: &mut Rng, base
         let shifted_date = format!("{}{}{}", &amz_now[1..8], &region[..1], &amz_now[8..]);
         forged.push(("after-valid/continued-account-name-shifted-scope", ak_cont.clone(), shifted_date, region[1..].to_owned(), "s3"));
     }
-    for (op, ak, date, reg, svc) in forged {
+    for (i, (op, ak, date, reg, svc)) in forged.into_iter().enumerate() {
+        // each forgery follows a valid request directly (what is remembered may be one entry deep)
+        if i > 0 {
+            let mut again = fresh(g);
+            if sign_with_signing_key(&mut again, AK, &amz_now, &region, "s3", &victim_key).is_some() {
+                let case = Case { req: again, op: "after-valid/the-valid-request".into(), payload_mode: "empty-digest".into(), secrets: secrets.clone() };
+                judge(rt, r, &case, &[]);
+            }
+        }
         let mut q = fresh(g);
         if sign_with_signing_key(&mut q, &ak, &date, &reg, svc, &victim_key).is_none() {
             continue;
